@@ -195,6 +195,17 @@ reg(
     "Trusted: pdv/refmodel/kalman.py. Precondition (stated in the property's scope): exact initial state, no damping.",
 )
 
+reg(
+    "C15",
+    "metamorphic monitor: pairs of executions that must agree (pytree vs flattened problem, permuted vs original, jit vs disable_jit, vmap vs Python loop) compared on values, structures, shapes, step counts and reported times",
+    "Random nested dict/tuple/namedtuple states (leaves of rank 0..3, custom Taylor container) vs the flattened problem: same "
+    "numbers, means and stds in the caller's structure with a leading time axis of the requested length; all non-identity "
+    "permutations of up to 4 components permute the solution; jit vs eager agree incl. step counts; vmap over batches whose "
+    "members need up to 30x different step counts agrees with a loop, every member finite and reported at the requested times. "
+    "Three factorisations, fixed and adaptive routines, filter and smoothers, three calibration modes.",
+    "Two repository executions are compared; tolerances 1e-10..1e-6 (dynamic calibration under jit vs eager differs by rounding sensitivity).",
+)
+
 NOT_BUILT_REASON = "check under construction in this session; not yet registered"
 
 
